@@ -346,6 +346,82 @@ fn http_unix(server: &str, bind: Option<&str>, method: &str, path: &str) -> (i64
     }
 }
 
+/// one response off a keep-alive connection: (status, body); reads exactly Content-Length octets
+fn read_response(raw: &mut Vec<u8>, mut more: impl FnMut(&mut Vec<u8>) -> bool) -> (i64, Vec<u8>) {
+    loop {
+        if let Some(h) = raw.windows(4).position(|w| w == b"\r\n\r\n") {
+            let head = String::from_utf8_lossy(&raw[..h]).to_string();
+            let status = head.split(' ').nth(1).and_then(|x| x.parse::<i64>().ok()).unwrap_or(-1);
+            let clen = head.lines().find_map(|l| l.to_ascii_lowercase().strip_prefix("content-length:").map(|v| v.trim().parse::<usize>().unwrap_or(0))).unwrap_or(0);
+            while raw.len() < h + 4 + clen {
+                if !more(raw) {
+                    return (status, raw[(h + 4).min(raw.len())..].to_vec());
+                }
+            }
+            let body = raw[h + 4..h + 4 + clen].to_vec();
+            raw.drain(..h + 4 + clen);
+            return (status, body);
+        }
+        if !more(raw) {
+            return (-1, vec![]);
+        }
+    }
+}
+
+/// several requests on ONE connection (HTTP/1.1 keep-alive), over TCP
+async fn http_tcp_seq(dst: &str, src: &str, paths: &[String]) -> Vec<(i64, Vec<u8>)> {
+    use tokio::io::{AsyncReadExt, AsyncWriteExt};
+    let dst: std::net::SocketAddr = dst.parse().unwrap();
+    let src: std::net::IpAddr = src.parse().unwrap();
+    let sock = if dst.is_ipv4() { tokio::net::TcpSocket::new_v4() } else { tokio::net::TcpSocket::new_v6() }.unwrap();
+    let mut out = vec![];
+    if sock.bind(std::net::SocketAddr::new(src, 0)).is_err() {
+        return out;
+    }
+    let mut s = match tokio::time::timeout(std::time::Duration::from_secs(2), sock.connect(dst)).await {
+        Ok(Ok(s)) => s,
+        _ => return out,
+    };
+    let mut raw: Vec<u8> = vec![];
+    for p in paths {
+        let req = format!("GET {} HTTP/1.1\r\nHost: erbium\r\n\r\n", p);
+        if s.write_all(req.as_bytes()).await.is_err() {
+            out.push((-1, vec![]));
+            continue;
+        }
+        // pull octets until one whole response is there
+        let mut got: Option<(i64, Vec<u8>)> = None;
+        for _ in 0..200 {
+            let mut probe = raw.clone();
+            let r = read_response(&mut probe, |_| false);
+            if r.0 != -1 && (probe.len() < raw.len() || raw.windows(4).any(|w| w == b"\r\n\r\n")) && complete(&raw) {
+                let r = read_response(&mut raw, |_| false);
+                got = Some(r);
+                break;
+            }
+            let mut buf = vec![0u8; 65536];
+            match tokio::time::timeout(std::time::Duration::from_secs(2), s.read(&mut buf)).await {
+                Ok(Ok(n)) if n > 0 => raw.extend(&buf[..n]),
+                _ => break,
+            }
+        }
+        out.push(got.unwrap_or((-1, vec![])));
+    }
+    out
+}
+
+/// is there one complete response (headers + Content-Length octets) at the front of `raw`?
+fn complete(raw: &[u8]) -> bool {
+    match raw.windows(4).position(|w| w == b"\r\n\r\n") {
+        Some(h) => {
+            let head = String::from_utf8_lossy(&raw[..h]).to_string();
+            let clen = head.lines().find_map(|l| l.to_ascii_lowercase().strip_prefix("content-length:").map(|v| v.trim().parse::<usize>().unwrap_or(0))).unwrap_or(0);
+            raw.len() >= h + 4 + clen
+        }
+        None => false,
+    }
+}
+
 // ------------------------------------------------------------- lease table --
 /// rows of the lease table through the harness's own connection: [ip octets, client id digest, client id length, start, expiry]
 fn sql_rows(base: i64) -> Result<Vec<Value>, String> {
@@ -592,6 +668,29 @@ pub fn http(args: &[String]) {
                         }
                     }
                     "sleep" => tokio::time::sleep(std::time::Duration::from_millis(step["ms"].as_u64().unwrap_or(100))).await,
+                    "http_seq" => {
+                        // several requests over one keep-alive connection: each is a decision of its own
+                        let paths: Vec<String> = step["paths"].as_array().map(|a| a.iter().map(|p| p.as_str().unwrap_or("/").to_string()).collect()).unwrap_or_default();
+                        let listener = step["listener"].as_str().unwrap_or("tcp4");
+                        let client = &step["client"];
+                        let src = client["src"].as_str().unwrap_or("127.0.0.1");
+                        let res = match listener {
+                            "tcp4" => http_tcp_seq(TCP4, src, &paths).await,
+                            "tcp6" => http_tcp_seq(TCP6, src, &paths).await,
+                            "dual4" => http_tcp_seq("127.0.0.1:9969", src, &paths).await,
+                            _ => http_tcp_seq("[::1]:9969", src, &paths).await,
+                        };
+                        if let Some(r) = &rules {
+                            for (i, p) in paths.iter().enumerate() {
+                                let status = res.get(i).map(|x| x.0).unwrap_or(-1);
+                                if perm_of(p) != "other" {
+                                    out.emit(json!({"ev":"acl","binding":"http","rules":r,"client":client["abs"],"op":perm_of(p),"outcome": if status == 200 || status == 403 || status == 404 { "ok" } else { "noresponse" },
+                                                    "granted": status == 200 || status == 404,"forwarded":false,"answered":status > 0,"status":status,"listener":listener,"path":p,"err":"","panics":0,"first_panic":"",
+                                                    "nth_on_connection": i + 1}));
+                                }
+                            }
+                        }
+                    }
                     "http" => {
                         let path = step["path"].as_str().unwrap_or("/");
                         let method = step["method"].as_str().unwrap_or("GET");
